@@ -88,7 +88,11 @@ def cases(tier, seed):
         p['k_impostor'] = int(r.randint(1, 5))
         p['basis'] = ['lda', 'triplet_diffs'][i % 2]
       out.append({'est': name, 'params': p, 'ds': dict(ds, nmax=70),
-                  'seed': int(r.randint(0, 10**6)), 'unknown': unknown,
+                  # (random_state = 0, the falsy integer seed, one case in
+                  # six; the draw is made regardless so that the other cases
+                  # keep their data)
+                  'seed': int(r.randint(0, 10**6)) * int(i % 6 != 4),
+                  'unknown': unknown,
                   # a class with a single member (it can give no similar pair
                   # but is a class all the same) / a single unlabeled point
                   'singleton': bool(name in ('ITML_Supervised',
